@@ -262,7 +262,9 @@ func (t *Tables) Respond(ctx context.Context, c *pgshim.Conn, kind, sql string) 
 				}
 			}
 			t.Moves = append(t.Moves, row)
-			res.Data = append(res.Data, []driver.Value{row["post_commit_volumes"], row["post_commit_volumes"]})
+			// Postgres prints a composite value without blanks: (in,out)
+			pcv := strings.ReplaceAll(row["post_commit_volumes"], " ", "")
+			res.Data = append(res.Data, []driver.Value{pcv, pcv})
 		}
 		return res, true, nil
 	}
